@@ -820,7 +820,7 @@ class ModelMixin2:
                 k, a, sl = e.succ
                 e2 = IdxE(k, e.parent, a, slack=sl, why=e.why)
             elif e.kind in ('fresh', 'slot'):
-                e2 = replace(e, delta=e.delta + d, descr='', succ=None)
+                e2 = replace(e, delta=max(-3, min(3, e.delta + d)), descr='', succ=None)
             else:
                 e2 = e
             return [(Ref('idx', st.new(e2)), st)]
